@@ -4,21 +4,29 @@ sys.path.insert(0, os.path.dirname(os.path.dirname(os.path.abspath(__file__))))
 VERIF = os.path.dirname(os.path.dirname(os.path.abspath(__file__)))
 
 CHECKS = {
-    "C01": ("reference-model monitor over generated declarations (runtime oracle on every try_new/new result)", "ctor",
+    "C01": ("reference-model monitor over generated declarations (runtime oracle on every try_new/new result)", "rt",
             "Exploration: the real generated constructors are executed on exhaustive small domains (all 8/16-bit integers, all short strings over a hostile alphabet; thorough: all 2^32 f32 patterns for 8 declarations, every Unicode scalar) and boundary/random inputs of ~1100 generated declarations, each result compared with an independent sanitize-then-validate interpreter whose bounds are evaluated in Python. Not a proof: declarations and wide-type inputs are sampled.", "5/C01"),
-    "C03": ("differential runtime monitor: each derived conversion vs the canonical constructor on the same input", "ctor",
+    "C03": ("differential runtime monitor: each derived conversion vs the canonical constructor on the same input", "rt",
             "Exploration: every derived TryFrom/From/FromStr(String)/Default is executed on the C01 input domains and compared (verdict, stored bits, error) with try_new/new; Default is compared with the constructor on the declared default expression (must panic iff rejected).", "5/C03"),
-    "C06": ("differential runtime monitor: T::from_str vs Inner::from_str followed by the constructor", "ctor",
+    "C06": ("differential runtime monitor: T::from_str vs Inner::from_str followed by the constructor", "rt",
             "Exploration over hostile numeric spellings; the oracle is the inner type's own FromStr plus the (C01-monitored) constructor, so no numeric-parsing model is trusted.", "5/C06"),
-    "C07": ("reference-model monitor (first violated rule in declared order) + wildcard-free match on the generated error enum", "ctor",
+    "C07": ("reference-model monitor (first violated rule in declared order) + wildcard-free match on the generated error enum", "rt",
             "Exploration over permutations of validator lists with inputs violating several rules at once; enum exhaustiveness is decided by rustc on a wildcard-free match in the harness.", "5/C07"),
-    "C11": ("fixed-point / chain-closure runtime monitor over every obtainable value", "ctor",
+    "C11": ("fixed-point / chain-closure runtime monitor over every obtainable value", "rt",
             "Exploration: for every Ok value of the C01 sweep every derived re-entry step must land on the same bits; thorough covers every Unicode scalar and case/space pairs.", "5/C11"),
-    "C12": ("invariant assertion (is_finite) on every value leaving any entry point + order-axiom monitor on pairs/triples", "ctor+serde+arb",
+    "C12": ("invariant assertion (is_finite) on every value leaving any entry point + order-axiom monitor on pairs/triples", "rt",
             "Exploration: obtainability invariant asserted at try_new/TryFrom/FromStr/Default/Deserialize/Arbitrary with NaN payloads, infinities and overflow spellings offered; order axioms checked on all pairs and triples of up to 96 obtainable values per declaration; thorough sweeps all 2^32 f32 patterns.", "5/C12"),
-    "C13": ("differential runtime monitor: views, Display, comparisons and hashes of the newtype vs the inner value", "ctor",
+    "C13": ("differential runtime monitor: views, Display, comparisons and hashes of the newtype vs the inner value", "rt",
             "Exploration over all obtainable values and ~2k-50k pairs per declaration (equal, adjacent, equal only after sanitisation, random); map lookups through the borrowed form included.", "5/C13"),
-    "C16": ("message-reading monitor: the relation stated in the error text is evaluated at the bound and its neighbours and compared with try_new", "ctor",
+    "C04": ("differential runtime monitor: Deserialize of the newtype vs a serde-derived reference newtype parsed from the same bytes, then the constructor; probing Deserializer", "rt",
+            "Exploration: ~150-200 serde declarations x 3 formats x 6 container positions x (serde-produced encodings of boundary/valid/invalid values, ~60 hostile documents per format, byte-level mutations). The critical direction (Ok where the reference says none = guard bypass) and the converse are both checked.", "5/C04"),
+    "C09": ("reference-model monitor on every value produced by the derived Arbitrary under catch_unwind + stall watchdog (bounded-progress restatement of termination)", "rt",
+            "Exploration: all byte inputs of length <= 2, boundary patterns up to 64 bytes, encodings of special floats / case-expanding code points, random inputs, over ~550 (quick) declarations with non-empty valid sets; thorough adds all 2^32 4-byte inputs for 8 f32 generators. Known generator defects are listed in known_findings.json by cause class verified on the witness.", "5/C09"),
+    "C10": ("recording-Serializer trace check + byte-identity vs inner encoding + conditioned round-trip monitor", "rt",
+            "Exploration over every obtainable value of the serde corpus document domain in JSON, RON and MessagePack; the trace check is format independent.", "5/C10"),
+    "C14": ("exhaustive runtime enumeration: produced set of the derived Arbitrary over all <=2-byte inputs compared with the valid set", "rt",
+            "Per declaration exhaustive (the generator consumes at most 2 bytes for ranges of <= 2^16 values, so [] plus all 1- and 2-byte inputs cover its whole behaviour); declarations are sampled from the grammar with a systematic core (range sizes 1,2,255,256,257,65536; every operator class in expression bounds).", "5/C14"),
+    "C16": ("message-reading monitor: the relation stated in the error text is evaluated at the bound and its neighbours and compared with try_new", "rt",
             "Exploration over every (family x bound kind) with bounds of both signs/magnitudes; a closed phrase dictionary maps text to a relation; unknown wording is inconclusive, not a violation.", "5/C16"),
 }
 
@@ -52,7 +60,7 @@ def main():
         "hooks": {"guard": "nutype_verif", "enable": "none needed: no source hooks; every property is observed at the public boundary of generated code, in rustc diagnostics, or in the nightly expansion dump (guard name reserved)",
                   "baseline_off_cmd": "cd /repo && cargo test --workspace --no-fail-fast --offline", "source_commits": [], "add_only": True},
         "engines": [
-            {"name": "ctor", "path": "gen/ + rt/ (workspace work/ctor-<tier>-s<seed>)", "serves_properties": ["C01", "C03", "C06", "C07", "C11", "C12", "C13", "C16"],
+            {"name": "rt", "path": "gen/ + rt/ (workspace work/rt-<tier>-s<seed>)", "serves_properties": ["C01", "C03", "C04", "C06", "C07", "C09", "C10", "C11", "C12", "C13", "C14", "C16"],
              "kind_free_text": "generated harness crates (one module per #[nutype] declaration + object-safe glue) linked with the nvrt monitor library; 16 monitor processes"},
         ],
         "checks": checks,
